@@ -196,8 +196,8 @@ Print Assumptions C14_judge_sound_all.
 (* ---- the business rules written out in Servers/C14Judge.v (onoff, press, air temperature x2, count,
    speaker volume without delta, mode values without relative, fan speed without relative) meet the
    [rule] interface the theorems above quantify over: they answer with a value or a gRPC status ---- *)
-Theorem C14_hand_rules_are_rules : forall ty h base q c,
-  hand_rule ty h base q = Some (inr c) -> is_status c = true.
+Theorem C14_hand_rules_are_rules : forall ty h base q obs c,
+  hand_rule ty h base q obs = Some (inr c) -> is_status c = true.
 Proof. exact hand_rule_status. Qed.
 Print Assumptions C14_hand_rules_are_rules.
 
@@ -242,18 +242,115 @@ Proof. vm_compute. repeat split; reflexivity. Qed.
 
 Example C14_hand_rule_catches_a_wrong_response :
   (* countpb: UpdateCount{count:{added:2}} on a fresh device; a response (and Get) showing added = 3 is
-     coherent with itself -- the property predicate holds -- and still not what the rule says *)
+     coherent with itself -- the clauses about Get and streams hold -- and still not what the rule says:
+     a failing input of the clause "the response is the written value" (C14_rules_ok), verdict 3 *)
   let key := "countpb.MemoryDevice/CountApi.Count" in
   let rt := ("reset_time", VM [("seconds", VS (SInt 5))]) in
   let q := mkU (Some (VM [("added", VS (SInt 2))])) None (VM [("name", VS (SStr "dev"))]) in
   let bad := VM [("added", VS (SInt 3)); rt] in
   let good := VM [("added", VS (SInt 2)); rt] in
-  judge (KTraceX key (VM [rt]) [TUpdate "dev" (inl bad); TGet "dev" None (inl (Some bad))] [] [] [] [q]) = 1 /\
+  judge (KTraceX key (VM [rt]) [TUpdate "dev" (inl bad); TGet "dev" None (inl (Some bad))] [] [] [] [q]) = 3 /\
+  C14_ok (KTraceX key (VM [rt]) [TUpdate "dev" (inl bad); TGet "dev" None (inl (Some bad))] [] [] [] [q]) = true /\
   judge (KTraceX key (VM [rt]) [TUpdate "dev" (inl good); TGet "dev" None (inl (Some good))] [] [] [] [q]) = 0 /\
   (* delta adds the stored count, in int32 *)
   let qd := mkU (Some (VM [("added", VS (SInt 2147483647))])) None (VM [("name", VS (SStr "dev")); ("delta", VS (SBool true))]) in
   let wrapped := VM [("added", VS (SInt (-2147483647))); rt] in
   judge (KTraceX key good [TUpdate "dev" (inl wrapped); TGet "dev" None (inl (Some wrapped))] [] [] [] [qd]) = 0.
+Proof. vm_compute. repeat split; reflexivity. Qed.
+
+(* ---- the written-out rules are part of the judge's property side: [C14_rules_ok] evaluates the hand rule
+   of the server on the register read off the observation (no model run) and demands the observed response;
+   an observation that agrees with the model run passes it (so verdict 2 cannot come from it), one that does
+   not is a failing input (verdict 3) even when every Get and stream is coherent with the response ---- *)
+Theorem C14_agreeing_observation_follows_the_hand_rules : forall c, agrees c = true -> C14_rules_ok c = true.
+Proof. exact judge_rules_all. Qed.
+Print Assumptions C14_agreeing_observation_follows_the_hand_rules.
+
+Theorem C14_judge_sound_with_rules : forall c,
+  C14_guard c = true -> trace_wf (c_server c) (c_init c) (c_evs c) = true -> agrees c = true ->
+  C14_ok c && C14_rules_ok c = true.
+Proof. intros c Hg Hwf Ha. rewrite (judge_sound_all c Hg Hwf Ha), (judge_rules_all c Ha). reflexivity. Qed.
+Print Assumptions C14_judge_sound_with_rules.
+
+Definition ts (n : Z) : value := VM [("seconds", VS (SInt n))].
+Definition at_ (lo hi : Z) : value := VM [("@t0", VS (SInt (lo * 1000000000))); ("@t1", VS (SInt (hi * 1000000000)))].
+Example C14_keyed_rules_catch_wrong_but_coherent_responses :
+  let hail := "hailpb.ModelServer/HailApi.Hail" in
+  let b := VM [("id", VS (SStr "1")); ("state", VS (SEnum 1)); ("note", VS (SStr "x"))] in
+  (* UpdateHail{hail:{id:1, state:2, note:y}, update_mask:[state]}: only the state is written *)
+  let q := mkU (Some (VM [("id", VS (SStr "1")); ("state", VS (SEnum 2)); ("note", VS (SStr "y"))])) (Some [["state"]]) (VM [("name", VS (SStr "dev"))]) in
+  let good := VM [("id", VS (SStr "1")); ("state", VS (SEnum 2)); ("note", VS (SStr "x"))] in
+  let bad := VM [("id", VS (SStr "1")); ("state", VS (SEnum 2)); ("note", VS (SStr "y"))] in   (* mask ignored, stored and returned *)
+  judge (KTraceX hail b [TUpdate "dev" (inl good); TGet "dev" None (inl (Some good))] [] [] [] [q]) = 0 /\
+  judge (KTraceX hail b [TUpdate "dev" (inl bad); TGet "dev" None (inl (Some bad))] [] [] [] [q]) = 3 /\
+  (* another id: NotFound, an empty id: InvalidArgument (hail) *)
+  let q2 := mkU (Some (VM [("id", VS (SStr "2")); ("state", VS (SEnum 2))])) None (VM []) in
+  let q0 := mkU (Some (VM [("state", VS (SEnum 2))])) None (VM []) in
+  judge (KTraceX hail b [TUpdate "dev" (inr 5); TUpdate "dev" (inr 3)] [] [] [] [q2; q0]) = 0 /\
+  judge (KTraceX hail b [TUpdate "dev" (inr 5); TUpdate "dev" (inr 5)] [] [] [] [q2; q0]) = 3 /\
+  (* a swallowed error: the rejected Update answered with the current value *)
+  judge (KTraceX hail b [TUpdate "dev" (inl b); TGet "dev" None (inl (Some b))] [] [] [] [q2]) = 3.
+Proof. vm_compute. repeat split; reflexivity. Qed.
+
+Example C14_emergency_rule_uses_the_observed_server_clock :
+  let em := "emergencypb.MemoryDevice/EmergencyApi.Emergency" in
+  let b := VM [("level", VS (SEnum 1))] in                       (* no change time stored *)
+  let q := mkU (Some (VM [("level", VS (SEnum 3))])) None (at_ 70 80) in
+  let good := VM [("level", VS (SEnum 3)); ("level_change_time", ts 77)] in
+  let bad := VM [("level", VS (SEnum 3))] in                     (* level changed, no time minted *)
+  judge (KTraceX em b [TUpdate "dev" (inl good); TGet "dev" None (inl (Some good))] [] [] [] [q]) = 0 /\
+  judge (KTraceX em b [TUpdate "dev" (inl bad); TGet "dev" None (inl (Some bad))] [] [] [] [q]) = 3 /\
+  (* level written under a mask, a change time stored: the time did not change with the level, so the server's is used *)
+  let q := mkU (Some (VM [("level", VS (SEnum 3))])) (Some [["level"]]) (at_ 70 80) in
+  let b2 := VM [("level", VS (SEnum 1)); ("level_change_time", ts 5)] in
+  let kept := VM [("level", VS (SEnum 3)); ("level_change_time", ts 5)] in
+  let restamped := VM [("level", VS (SEnum 3)); ("level_change_time", ts 77)] in
+  judge (KTraceX em b2 [TUpdate "dev" (inl restamped); TGet "dev" None (inl (Some restamped))] [] [] [] [q]) = 0 /\
+  judge (KTraceX em b2 [TUpdate "dev" (inl kept); TGet "dev" None (inl (Some kept))] [] [] [] [q]) = 3.
+Proof. vm_compute. repeat split; reflexivity. Qed.
+
+(* fixed in /repo (emergencypb/memory.go): the interceptor compared Timestamp pointers, so a level change kept a stale
+   level_change_time unless neither the stored nor the written message had one; v0 of the rule = the old code *)
+Example C14_emergency_stale_change_time_v0_refuted :
+  let b2 := VM [("level", VS (SEnum 1)); ("level_change_time", ts 5)] in
+  let merged := VM [("level", VS (SEnum 3)); ("level_change_time", ts 5)] in        (* Update{level: 3, mask [level]} merged into a clone *)
+  let restamped := VM [("level", VS (SEnum 3)); ("level_change_time", ts 77)] in
+  emergency_after_v0 (mkU None None (at_ 70 80)) (inl restamped) b2 merged = merged /\                           (* old code: level 1 -> 3 at a change time of 5 *)
+  venum "level" merged <> venum "level" b2 /\ vget "level_change_time" merged = vget "level_change_time" b2 /\
+  emergency_after (mkU None None (at_ 70 80)) (inl restamped) b2 merged = restamped.
+Proof. vm_compute. repeat split; congruence. Qed.
+
+Example C14_publication_rule_version_precondition :
+  let pb := "publicationpb.ModelServer/PublicationApi.Publication" in
+  let b := VM [("id", VS (SStr "p")); ("version", VS (SStr "v1")); ("media_type", VS (SStr "a"))] in
+  let res := VM [("id", VS (SStr "p")); ("media_type", VS (SStr "b"))] in
+  let stale := mkU (Some res) None (VM [("version", VS (SStr "v0"))]) in
+  let fresh := mkU (Some res) None (VM [("version", VS (SStr "v1"))]) in
+  let w := VM [("id", VS (SStr "p")); ("version", VS (SStr "v2")); ("media_type", VS (SStr "b")); ("publish_time", ts 9)] in
+  judge (KTraceX pb b [TUpdate "dev" (inr 9)] [] [] [] [stale]) = 0 /\
+  judge (KTraceX pb b [TUpdate "dev" (inl w); TGet "dev" None (inl (Some w))] [] [] [] [stale]) = 3 /\   (* precondition skipped *)
+  judge (KTraceX pb b [TUpdate "dev" (inl w); TGet "dev" None (inl (Some w))] [] [] [] [fresh]) = 0.
+Proof. vm_compute. repeat split; reflexivity. Qed.
+
+Example C14_electric_and_light_rules_use_the_device_tables :
+  let el := "electricpb.ModelServer/ElectricApi.ActiveMode" in
+  let b := VM [("id", VS (SStr "m1")); ("title", VS (SStr "mode m1")); ("start_time", ts 3)] in
+  let q := mkU (Some (VM [("id", VS (SStr "m2")); ("title", VS (SStr "ignored"))])) None (VM []) in
+  let m2 := VM [("id", VS (SStr "m2")); ("title", VS (SStr "mode m2")); ("start_time", ts 9);
+                ("segments", VL [VM [("magnitude", VS (SF32 1065353216))]])] in
+  let echoed := VM [("id", VS (SStr "m2")); ("title", VS (SStr "ignored")); ("start_time", ts 9)] in   (* the request stored instead of the device's mode *)
+  judge (KTraceX el b [TUpdate "dev" (inl m2); TGet "dev" None (inl (Some m2))] [] [] [] [q]) = 0 /\
+  judge (KTraceX el b [TUpdate "dev" (inl echoed); TGet "dev" None (inl (Some echoed))] [] [] [] [q]) = 3 /\
+  judge (KTraceX el b [TUpdate "dev" (inr 5)] [] [] [] [mkU (Some (VM [("id", VS (SStr "nope"))])) None (VM [])]) = 0 /\
+  let li := "lightpb.ModelServer/LightApi.Brightness" in
+  let lb := VM [("level_percent", VS (SF32 1109393408))] in       (* 40 % *)
+  let cfg n := VM [("@presets", VS (SInt n))] in
+  let byname := mkU (Some (VM [("preset", VM [("name", VS (SStr "dim"))])])) (Some [["preset"]]) in
+  let dim := VM [("level_percent", VS (SF32 1101004800)); ("preset", VM [("name", VS (SStr "dim")); ("title", VS (SStr "Dim"))])] in
+  let nolevel := VM [("level_percent", VS (SF32 1109393408)); ("preset", VM [("name", VS (SStr "dim")); ("title", VS (SStr "Dim"))])] in
+  (* a model that knows "dim": the level follows although the mask names preset only *)
+  judge (KTraceX li lb [TUpdate "dev" (inl dim); TGet "dev" None (inl (Some dim))] [] [] [] [byname (cfg 1)]) = 0 /\
+  judge (KTraceX li lb [TUpdate "dev" (inl nolevel); TGet "dev" None (inl (Some nolevel))] [] [] [] [byname (cfg 1)]) = 3.
 Proof. vm_compute. repeat split; reflexivity. Qed.
 
 (* ---- defects ---- *)
